@@ -866,7 +866,8 @@ def main(tier=None, replay=None):
             ck.sample({"H": x["H"], "x": x["pts"][0], "rhs": x["rhs"][0]})
 
         # twin stage result
-        limit = (170 if ck.quick else 1100) - (time.time() - ck.t0)
+        # normal: 60-90 s quick on an idle machine; the limit is generous because the machine may be shared
+        limit = (900 if ck.quick else 3600) - (time.time() - ck.t0)
         try:
             cout, _ = child.communicate(timeout=max(limit, 30))
         except subprocess.TimeoutExpired:
@@ -874,9 +875,10 @@ def main(tier=None, replay=None):
             child.communicate()
             msg = ("the twin integrations did not terminate within the time limit (an integration of this tree does not "
                    "return: a driver loops, e.g. on a NaN)")
-            if not bad:
-                raise MachineryError(msg)
-            ck.notes.append(msg + "; twin stage abandoned, violations of the right-hand-side stage are reported")
+            ck.violation("twin-integrations|do-not-return",
+                         msg + f" [limit {max(limit, 30):.0f} s; the same stage takes 60-90 s on the unchanged tree]",
+                         {"kind": "twin-timeout"})
+            ck.notes.append(msg + "; twin stage abandoned")
             cout = None
         if cout is not None:
             if not outp.exists():
@@ -923,6 +925,9 @@ def main(tier=None, replay=None):
 
 
 def replay_one(data, path) -> int:
+    if data.get("kind") == "twin-timeout":
+        print("the twin stage as a whole did not return: re-run ./check C17 --tier quick (deterministic)")
+        return 0
     lib()
     bad: list = []
     if data.get("case") == "rhs":
